@@ -361,9 +361,10 @@ fn single_edits(w: &str) -> Vec<String> {
     out
 }
 
-const HASH_ALPHABET: [&str; 10] = ["0", "9", "a", "F", "g", "G", "+", "-", "\u{e9}", "\u{1f600}"];
+// both alphabets are in byte order, so that enumeration order = string order (the smallest cases are met first)
+const HASH_ALPHABET: [&str; 10] = ["+", "-", "0", "9", "F", "G", "a", "g", "\u{e9}", "\u{1f600}"];
 /// characters whose lower-case mapping changes the byte length (U+0130, U+212A, U+2126) next to plain ones
-const FOLD_ALPHABET: [&str; 5] = ["a", "1", "\u{130}", "\u{212a}", "\u{2126}"];
+const FOLD_ALPHABET: [&str; 5] = ["1", "a", "\u{130}", "\u{2126}", "\u{212a}"];
 
 fn sweep_indexed(total: u64, system: &str, col: &Collector, track: bool, make: impl Fn(u64, &mut String) + Sync) -> Acc {
     const CHUNK: u64 = 4096;
